@@ -22,7 +22,7 @@ from tools import common, shroudrun
 LEVEL = "proof"
 MANIFEST = dict(
     category="proof",
-    text="Lean 4 theorems (38 audited, no size bound) on a model of the plain C API assembly of wrapc.py (language c++). "
+    text="Lean 4 theorems (40 audited, no size bound) on a model of the plain C API assembly of wrapc.py (language c++). "
          "Call equivalence for ALL parameter lists and values of the modelled kinds: native/bool/struct by value, pointer, reference; "
          "native `T **` / `T *&`; char by value, `char *`, `char **`, `void **`; enum by value and (after fix f9c4cc7) by pointer/"
          "reference; std::string by value and by pointer/reference with intent in/out/inout; class instances by value/pointer/"
@@ -31,7 +31,8 @@ MANIFEST = dict(
          "arrive in the caller's memory (arg_out_equivalence, string_inout_untouched), `this` is the object held by the capsule "
          "named by the first C parameter exactly for instance methods and destructors with the method's constness (this_plan, "
          "this_object, this_wrong_parameter_differs), results are converted back (result_equivalence: native, reference as pointer, "
-         "bool, enum as int, char*, c_str of a std::string, struct by value/pointer, class by pointer/reference/value, constructor), "
+         "bool, enum as int, char*, c_str of a std::string, struct by value/pointer, class by pointer/reference/value, constructor; "
+         "class_reference_result_identity: a class reference result hands out the very object, the by-value plan a fresh copy), "
          "the destructor wrapper deletes the held object and leaves {addr = NULL, idtor unchanged} in the handle "
          "(dtor_clears_handle). The call_list rule over the 2x3 table {pointer, non-pointer parameter} x {scalar, pointer, no local} "
          "(call_list_*). Conversion round trips for enum, bool and class handles (enum_round_trip, shadow_round_trip, "
@@ -56,7 +57,12 @@ MANIFEST = dict(
          "default arguments with default_arg_suffix lists, function templates with 1-3 type parameters and permuted instantiations, "
          "class templates, const/static methods, ctor/dtor (handle NULL and idtor unchanged after dtor), class results by "
          "pointer/reference/value, struct arguments on methods and in namespaces, enum by pointer/reference, callbacks, char **, "
-         "void **, customised C_prefix and C_name_template. Trusted / modelled-not-verified: Lean kernel; the translator's pattern "
+         "void **, customised C_prefix and C_name_template; overload-resolution observations (wrapped overload sets on std::string "
+         "by reference or value / bool / const char * / int / double / long, and unwrapped decoy overloads in the subject library: "
+         "bool and const char * next to every std::string parameter, an ordinary function next to every function template) and "
+         "identity observations for class results (same address on every call, not caller-owned, `*this` returned by reference is "
+         "the object called on; by-value results are caller-owned copies); the tie also requires the explicit template arguments "
+         "of every instantiation's call. Trusted / modelled-not-verified: Lean kernel; the translator's pattern "
          "table (meaning of each template line); the abstract semantics of C++ argument passing in Model/WrapC.lean (evalCall, "
          "resolve, convString = std::string's converting constructor); per-argument two-variable environments (distinct parameter "
          "names); capsule idtor values are parameters (C06); the naming rule lives in the Python harness, not in Lean (C08); "
@@ -82,6 +88,7 @@ THEOREMS = {
         "Shroud.WrapC.table_arg_shapes",
         "Shroud.WrapC.arg_call_equivalence",
         "Shroud.WrapC.string_by_value",
+        "Shroud.WrapC.string_by_value_old_code",
         "Shroud.WrapC.pointer_to_pointer",
         "Shroud.WrapC.enum_indirect",
         "Shroud.WrapC.enum_indirect_old_code_ill_typed",
@@ -93,6 +100,7 @@ THEOREMS = {
         "Shroud.WrapC.table_res_shapes",
         "Shroud.WrapC.table_class_entries",
         "Shroud.WrapC.result_equivalence",
+        "Shroud.WrapC.class_reference_result_identity",
         "Shroud.WrapC.this_plan",
         "Shroud.WrapC.this_object",
         "Shroud.WrapC.this_wrong_parameter_differs",
@@ -439,9 +447,28 @@ def node_key(cls, node):
 def check_documented_names(ctx, spec, lib, shapes):
     want = documented_names(spec)
     got = {}
+    nodes = {}
     for cls, node in walk_functions(lib):
         if node.wrap.c and node.fmtdict.inlocal("C_name"):
             got[node_key(cls, node)] = node.fmtdict.C_name
+            nodes[node.fmtdict.C_name] = node
+    # an instantiation `name<types>` of a function template is called with its explicit template arguments (a call
+    # without them goes through overload resolution and may reach an ordinary function of the same name)
+    for f in spec.funcs:
+        if not f.template:
+            continue
+        for cname, _nd, inst in spec.c_names(f):
+            node = nodes.get(cname)
+            if node is None:
+                continue
+            ctx.count(1)
+            real = (node.fmtdict.CXX_template if "CXX_template" in node.fmtdict else "").replace(" ", "")
+            if real != "<%s>" % ",".join(inst):
+                ctx.fail("c02:template-call-not-explicit:%dx%d" % (len(f.tparams), len(f.template)),
+                         "%s is documented to call %s<%s> but the call expression carries the template arguments %r" % (
+                             cname, f.name, ", ".join(inst), real),
+                         {"yaml": spec.yaml(), "function": spec.fdecl(f)["decl"], "expected": "<%s>" % ",".join(inst), "actual": real})
+                return
     sh = ",".join(sorted(spec.overload_shapes())) or "-"
     for s in spec.overload_shapes() + spec.variant_shapes():
         shapes[s] = shapes.get(s, 0) + 1
